@@ -851,6 +851,8 @@ void BW_MidiSequencer::buildTimeLine(const std::vector<MidiEvent> &tempos,
                                           uint64_t loopEndTicks)
 {
     const size_t    trackCount = m_trackData.size();
+    // Remember the tempo the song starts with
+    m_tempoBegin = m_tempo;
     /********************************************************************************/
     // Calculate time basing on collected tempo events
     /********************************************************************************/
@@ -2239,6 +2241,7 @@ void BW_MidiSequencer::rewind()
 {
     m_currentPosition   = m_trackBeginPosition;
     m_atEnd             = false;
+    m_tempo             = m_tempoBegin;
 
     m_loop.loopsCount = m_loopCount;
     m_loop.reset();
